@@ -98,12 +98,13 @@ type c21Net struct {
 	wg     sync.WaitGroup
 
 	// the "idle" scenario: held responses and a gate in the client side's Close
-	started     chan string
-	holds       map[string]chan struct{}
-	gateCloses  bool
-	closeArmed  atomic.Bool
-	closeEnter  chan struct{}
-	closeLetGo  chan struct{}
+	started    chan string
+	holds      map[string]chan struct{}
+	gateCloses bool
+	wrapShape  byte // what Dial returns: 0/'n' the bare connection, 'N' 'U' 'S' a plain wrapper type (c21WrapConn)
+	closeArmed atomic.Bool
+	closeEnter chan struct{}
+	closeLetGo chan struct{}
 }
 
 func (n *c21Net) holdCh(path string) chan struct{} {
@@ -247,6 +248,40 @@ func (c *c21PipeConn) SetReadDeadline(t time.Time) error {
 }
 func (c *c21PipeConn) SetWriteDeadline(time.Time) error { return nil }
 
+// Plain (non-TLS) wrapper types a custom Dial function may return: instrumented / deadline / counting wrappers that
+// expose extra methods.  None of them has Handshake() (the documented "already TLS" marker), so an https request
+// must still be wrapped in TLS by the client.
+type c21WrapNetConn struct{ net.Conn }
+
+func (w *c21WrapNetConn) NetConn() net.Conn { return w.Conn }
+
+type c21WrapUnwrap struct{ net.Conn }
+
+func (w *c21WrapUnwrap) Unwrap() net.Conn            { return w.Conn }
+func (w *c21WrapUnwrap) CloseWrite() error           { return nil }
+func (w *c21WrapUnwrap) BytesWritten() int           { return 0 }
+func (w *c21WrapUnwrap) VerifyHostname(string) error { return nil }
+
+type c21WrapState struct{ net.Conn }
+
+// ConnectionState-less, Handshake-less, but with the other names of tls.Conn's surface
+func (w *c21WrapState) NetConn() net.Conn       { return w.Conn }
+func (w *c21WrapState) OCSPResponse() []byte    { return nil }
+func (w *c21WrapState) CloseWrite() error       { return nil }
+func (w *c21WrapState) SetKeepAlive(bool) error { return nil }
+
+func c21WrapConn(shape byte, c net.Conn) net.Conn {
+	switch shape {
+	case 'N':
+		return &c21WrapNetConn{c}
+	case 'U':
+		return &c21WrapUnwrap{c}
+	case 'S':
+		return &c21WrapState{c}
+	}
+	return c
+}
+
 type c21Peeked struct {
 	net.Conn
 	r *bufio.Reader
@@ -272,9 +307,9 @@ func (n *c21Net) dialAs(owner int, addr string) (net.Conn, error) {
 	n.wg.Add(1)
 	go n.serve(rec, srv)
 	if n.gateCloses {
-		return &c21GateConn{cli, n}, nil
+		return &c21GateConn{c21WrapConn(n.wrapShape, cli), n}, nil
 	}
-	return cli, nil
+	return c21WrapConn(n.wrapShape, cli), nil
 }
 
 func (n *c21Net) serve(rec *c21ConnRec, raw net.Conn) {
@@ -398,14 +433,22 @@ type c21HCSpec struct {
 // args: cfg ("wt=0|1"), standalone host clients ("addr|tls;addr|tls"), ops ("C url,k > url,k" / "H i url,k > ..." / "L url,k")
 // cfg: "wt=0|1[ I|V|N]": WriteTimeout off/on; TLS config mode: I InsecureSkipVerify, V verification against the test
 // root with the server name derived from the address, N verification with TLSConfig.ServerName set
-func c21Decode(a [][]byte) (wt bool, mode, hook byte, hcs []c21HCSpec, ops []c21Op, ok bool) {
+func c21Decode(a [][]byte) (wt bool, mode, hook, shape byte, hcs []c21HCSpec, ops []c21Op, ok bool) {
 	if len(a) < 2 {
 		return
 	}
-	mode, hook = 'I', 'E'
+	mode, hook, shape = 'I', 'E', 'n'
 	cf := strings.Fields(string(a[0]))
-	if len(cf) == 0 || len(cf) > 3 {
+	if len(cf) == 0 || len(cf) > 4 {
 		return
+	}
+	if len(cf) == 4 {
+		// what the custom Dial function returns: n the bare connection, N U S plain wrapper types with extra methods
+		if len(cf[3]) != 1 || !strings.ContainsRune("nNUS", rune(cf[3][0])) {
+			return
+		}
+		shape = cf[3][0]
+		cf = cf[:3]
 	}
 	if len(cf) == 3 {
 		// which retry hook carries the scripted URL rewrites: E RetryIfErr, F RetryIf
@@ -514,7 +557,7 @@ func c21Decode(a [][]byte) (wt bool, mode, hook byte, hcs []c21HCSpec, ops []c21
 	if len(ops) == 0 || len(ops) > 40 {
 		return
 	}
-	return wt, mode, hook, hcs, ops, true
+	return wt, mode, hook, shape, hcs, ops, true
 }
 
 type c21Balanced struct {
@@ -570,12 +613,12 @@ func c21Bit(b bool) []byte {
 }
 
 func c21Ops(a [][]byte) *Case {
-	wt, mode, hookKind, specs, ops, ok := c21Decode(a)
+	wt, mode, hookKind, shape, specs, ops, ok := c21Decode(a)
 	if !ok {
 		return nil
 	}
 	c21ServerConfig()
-	nw := &c21Net{script: map[string]c21Reply{}}
+	nw := &c21Net{script: map[string]c21Reply{}, wrapShape: shape}
 	next := map[string]string{} // path of a failing attempt -> URL the retry hook rewrites the request to
 	for _, op := range ops {
 		for j := range op.hops {
@@ -1235,6 +1278,7 @@ func init() {
 			"URLs over schemes {http, https, HTTP, HTTPS, none, ftp, httpx} x hosts {a.test, A.test, a.test:443, a.test:80, a.test:8443, b.test, [::1], [::1]:443, [::1]:8080, 127.0.0.1} x keep-alive or close; both dialAddr paths (WriteTimeout 0 / >0); " +
 			"HostClient addresses incl. shapes no TLS server name can be derived from ([::1], ::1, 2001:db8::1, [2001:db8::1]) x TLS config {InsecureSkipVerify, verification with derived server name, verification with TLSConfig.ServerName}; " +
 			"18% of the hops have 1..2 first attempts that fail retriably (the peer reads the request and closes) with a RetryIfErr or RetryIf hook rewriting the URL - scheme and host - before the next attempt; " +
+			"the custom Dial returns the bare connection or a plain wrapper type with extra methods (NetConn(), Unwrap(), CloseWrite(), ... but no Handshake()); " +
 			"12% of the single-hop calls get their *Request from a reverse-proxy source: the request a fasthttp.Server received over an in-memory TLS or plaintext connection (ctx.Request itself or a CopyTo copy) is handed to Client.Do / HostClient.Do / LBClient.Do; " +
 			"30% of the calls are repeated 2..4 times in a row; the peer records the first bytes of every connection (TLS ClientHello or cleartext); " +
 			"addmissingport: AddMissingPort on generated addresses; non-trivial = at least two requests were written; distinct = distinct input",
@@ -1304,7 +1348,7 @@ func init() {
 				return out
 			}
 			for i := 0; i < n; i++ {
-				args := [][]byte{B(fmt.Sprintf("wt=%d %c %c", r.Intn(2), "IVVN"[r.Intn(4)], "EEF"[r.Intn(3)]))}
+				args := [][]byte{B(fmt.Sprintf("wt=%d %c %c %c", r.Intn(2), "IVVN"[r.Intn(4)], "EEF"[r.Intn(3)], "nnnNUS"[r.Intn(6)]))}
 				nh := r.Intn(4)
 				var specs []string
 				for j := 0; j < nh; j++ {
